@@ -26,6 +26,7 @@ func runC08(c *core.Ctx, r *core.Reporter) {
 	c08args(c, r)
 	c08patch(c, r)
 	c08cache(c, r)
+	c08nostate(c, r)
 }
 
 // flowsToArgs reports whether v (a List) reaches a store into a field named
@@ -251,4 +252,71 @@ func fromMapLookup(v ssa.Value, depth int) bool {
 func c08cache(c *core.Ctx, r *core.Reporter) {
 	// implemented in c08_cache.go when armed
 	c08cacheImpl(c, r)
+}
+
+// c08nostate: a built-in's Call must not keep state in its function object.
+func c08nostate(c *core.Ctx, r *core.Reporter) {
+	const rule = "C08.nostate"
+	r.Rule(rule, "the Call/Place method of a registered built-in never stores into a field of its own function object (the object is shared by every evaluation of that code: a cached value makes the hundredth evaluation differ from the first); caching compiled sub-forms in elements of Function.Args is covered by C08.cache", 700)
+	seen := map[*ssa.Function]bool{}
+	for _, b := range c.Registry() {
+		for _, m := range []*types.Func{b.Call, b.Place} {
+			if m == nil {
+				continue
+			}
+			fn := c.SSAFunc(m)
+			if fn == nil || seen[fn] || len(fn.Params) == 0 {
+				continue
+			}
+			seen[fn] = true
+			recv := fn.Params[0]
+			var bad []string
+			pos := fn.Pos()
+			var scan func(f *ssa.Function)
+			scan = func(f *ssa.Function) {
+				for _, bb := range f.Blocks {
+					for _, in := range bb.Instrs {
+						st, ok := in.(*ssa.Store)
+						if !ok {
+							continue
+						}
+						fa, ok := st.Addr.(*ssa.FieldAddr)
+						if !ok {
+							continue
+						}
+						if rootedAt(fa.X, recv, 0) {
+							bad = append(bad, fieldName(fa))
+							pos = st.Pos()
+						}
+					}
+				}
+				for _, af := range f.AnonFuncs {
+					scan(af)
+				}
+			}
+			scan(fn)
+			key := core.FuncName(m)
+			r.Decide(len(bad) == 0, rule, key, c.Pos(pos), fmt.Sprintf("stores into fields of the receiver: %v", bad))
+		}
+	}
+}
+
+// rootedAt: v is the receiver itself or the address of a (nested, embedded) field of it.
+func rootedAt(v ssa.Value, recv *ssa.Parameter, depth int) bool {
+	if depth > 6 {
+		return false
+	}
+	switch x := v.(type) {
+	case *ssa.Parameter:
+		return x == recv
+	case *ssa.FieldAddr:
+		return rootedAt(x.X, recv, depth+1)
+	case *ssa.UnOp:
+		// *recvSpill: the receiver captured by a closure
+		if fv, ok := x.X.(*ssa.FreeVar); ok {
+			_ = fv
+			return false
+		}
+	}
+	return false
 }
